@@ -165,12 +165,16 @@ class C12(Prop):
           'per spec 3-5 members (first, last, random), each exported through flat / nested numbers, compact and '
           'verbose JSON and the 30 to_dict option triples (2 key types x 5 value types x 3 multi-choice modes; '
           'dna_spec keys are checked by the oracle), and producer chains of 1-5 operations from '
-          '{next, clone, renumber, redict, rejson, swap, random}. Non-trivial: the member has at least 2 nodes; '
+          '{next, clone, renumber, redict, rejson, swap, random, mutators.Uniform, recombinators.Uniform / KPoint} '
+          '(for the evolution operators the model is given the raw tree they return and predicts its bindings); '
+          'plus a family of conditional choices nested in conditional choices with all their members. Non-trivial: the member has at least 2 nodes; '
           'distinct: by case JSON.')
   trusted_base = [
       'harness/c11_geno.py reference of members (case generation) and swap_sites (which node Swap picks)',
       'Swap is driven by a scripted random source (shuffle = identity, sample = recorded pair)',
-      'from_dict / verbose JSON / dna[...] lookups are checked by the oracle on the real code only (not modelled)',
+      'from_dict is modelled (dictionary look-ups by id / name with list popping, candidate_index incl. its two regular '
+      'expressions for ASCII digits) and compared on the 30 option triples; verbose JSON and dna[...] lookups are checked '
+      'by the oracle on the real code only',
       'modelled, not verified: to_numbers, from_numbers, compact form and its parser, use_spec beliefs, ids, to_dict '
       '(the 30 to_dict option triples and the node bindings after every producer step are compared verbatim; '
       'no Lean theorem about to_dict / from_dict)',
@@ -180,12 +184,14 @@ class C12(Prop):
                  'DNA objects are only built through the DNA constructor']
 
   # -- generation -------------------------------------------------------------------------
-  def make_case(self, spec, rng, n_members=3, n_chains=2):
+  def make_case(self, spec, rng, n_members=3, n_chains=2, all_members=False):
     finite = G.is_finite(spec)
     members = []
     if finite and G.size_bound(spec) <= 300:
       allm = sorted(G.ref_all(spec), key=lambda t: repr(G.freeze(t)))
       members += [allm[0], allm[-1]]
+      if all_members and len(allm) <= 40:
+        members += allm
     for _ in range(n_members):
       members.append(G.ref_member(spec, rng))
     uniq, seen = [], set()
@@ -199,11 +205,25 @@ class C12(Prop):
       start = rng.choice(uniq)
       cur = start
       ops = []
+      opaque = False
       for _ in range(rng.randint(1, 5)):
         kind = rng.weighted([(3, 'next'), (2, 'clone'), (2, 'renumber'), (2, 'redict'), (1, 'rejson'),
-                             (4, 'swap'), (2, 'random')])
+                             (4, 'swap'), (2, 'random'), (5, 'uniform'), (3, 'recombine')])
         if kind == 'next' and not finite:
           kind = 'clone'
+        if kind in ('uniform', 'recombine') and not G.points(spec):
+          kind = 'clone'         # Uniform raises 'Immutable DNA' by design on a space without decisions
+        if opaque and kind in ('swap', 'next'):
+          kind = 'uniform' if G.points(spec) else 'clone'   # the reference no longer knows the current tree
+        if kind == 'uniform':
+          ops.append({'op': 'uniform', 'seed': rng.below(1 << 20)})
+          opaque = True
+          continue
+        if kind == 'recombine':
+          ops.append({'op': 'recombine', 'kind': rng.choice(['uniform', 'kpoint']), 'seed': rng.below(1 << 20),
+                      'other': G.ref_member(spec, rng)})
+          opaque = True
+          continue
         if kind == 'swap':
           sites = [s for s in swap_sites(spec, cur) if not s[2]]
           if not sites:
@@ -225,6 +245,7 @@ class C12(Prop):
           else:
             cur, script = G.ref_random(spec, rng)
             ops.append({'op': 'random', 'script': script})
+            opaque = False
             continue
         if kind == 'next':
           ops.append({'op': 'next'})
@@ -249,6 +270,20 @@ class C12(Prop):
       if G.has_custom(spec):
         spec = G.S([G.C(2, [[], [], []], True, False)])
       yield self.make_case(decorate(spec, rng), rng)
+    # conditional choices inside conditional choices whose chosen candidate holds several decisions
+    inner = [[G.C(2, [[], [], []], True, False)], [G.C(2, [[], []], False, True)],
+             [G.C(1, [[], []]), G.C(1, [[], []])], [G.C(1, [[], []]), G.C(2, [[], [], []], True, True)],
+             [G.C(1, [[], [G.C(2, [[], []], False, False)]])], [G.C(3, [[], [], []], True, False)]]
+    import copy
+    nested = []
+    for x in inner:
+      one = G.C(1, [copy.deepcopy(x), []])
+      two = G.C(1, [[], [copy.deepcopy(one)]])
+      three = G.C(1, [[copy.deepcopy(two)], []])
+      nested += [one, two, three, G.S([copy.deepcopy(two), G.C(1, [[], []])]),
+                 G.C(2, [[copy.deepcopy(one)], [], []], True, False)]
+    for p in (nested if tier == 'quick' else nested * 3):
+      yield self.make_case(decorate(copy.deepcopy(p), rng), rng, n_members=2, n_chains=2, all_members=True)
     fam = [p for p in G.family_points(max_n=3, max_k=3) if G.size_bound(p) <= 60]
     picked = rng.sample(fam, 40) if tier == 'quick' else fam
     for p in picked:
@@ -257,6 +292,23 @@ class C12(Prop):
 
   def model_request(self, case):
     return case
+
+  def model_request_with_impl(self, case, impl_out):
+    """The mutators / recombinators draw from random.Random: the model is given the raw tree they
+    returned and predicts the node bindings and views of that tree (alignment), not the tree."""
+    chains = []
+    for ch, steps in zip(case['chains'], impl_out['model']['chains']):
+      ops = []
+      for i, op in enumerate(ch['ops']):
+        if op['op'] in ('uniform', 'recombine'):
+          st = steps[i] if i < len(steps) else None
+          if st is None or 'error' in st:
+            break
+          ops.append({'op': 'given', 'tree': st['norm']})
+        else:
+          ops.append(op)
+      chains.append({'start': ch['start'], 'ops': ops})
+    return dict(case, chains=chains)
 
   # -- implementation ---------------------------------------------------------------------
   def views(self, spec, spec_j, d):
@@ -296,6 +348,7 @@ class C12(Prop):
       dd = d.to_dict(key_type=kt, value_type=vt, multi_choice_key=mk)
       back.append(attempt(lambda: geno.DNA.from_dict(dict(dd), spec, use_ints_as_literals=(vt == 'literal'))))
     obs['from_dict'] = back
+    out['from_dicts'] = [None if isinstance(x, str) else x for x in back[:len(GRID)]]
     obs['spec_keys_equal_id_keys'] = all(
         canon_dict(d.to_dict(key_type='dna_spec', value_type=vt, multi_choice_key=mk)) ==
         canon_dict(d.to_dict(key_type='id', value_type=vt, multi_choice_key=mk))
@@ -375,6 +428,15 @@ class C12(Prop):
             cur = m.mutate(cur)
           elif k == 'random':
             cur = spec.random_dna(H.ScriptedRandom(op['script']))
+          elif k == 'uniform':
+            cur = mutators.Uniform(seed=op['seed']).mutate(cur)
+          elif k == 'recombine':
+            from pyglove.ext.evolution import recombinators
+            other = H.mk_dna(op['other'])
+            other.use_spec(spec)
+            r = (recombinators.Uniform(seed=op['seed']) if op['kind'] == 'uniform'
+                 else recombinators.KPoint(1, seed=op['seed']))
+            cur = r.recombine([cur, other], geno.AttributeDict(), 0)[0]
           if cur is None:
             steps.append(None)
             break
@@ -407,6 +469,8 @@ class C12(Prop):
       if db.get('dicts') is not None:
         for (kt, vt, mk), x, y in zip(GRID, da['dicts'], db['dicts']):
           chk('dna%d.to_dict(%s,%s,%s)' % (i, kt, vt, mk), x, sort_dict(y))
+        for (kt, vt, mk), x, y in zip(GRID, da['from_dicts'], db.get('from_dicts') or []):
+          chk('dna%d.from_dict(to_dict(%s,%s,%s))' % (i, kt, vt, mk), x, y)
     for i, (ca, cb) in enumerate(zip(a['chains'], b['chains'])):
       for j, (sa, sb) in enumerate(zip(ca, cb)):
         if sa is None or sb is None:
@@ -420,7 +484,8 @@ class C12(Prop):
         chk('chain%d.step%d(%s).beliefs' % (i, j, op), sa['beliefs'], sb.get('beliefs'))
         chk('chain%d.step%d(%s).dict' % (i, j, op), sa['dict'], sort_dict(sb.get('dict')))
         chk('chain%d.step%d(%s).dict2' % (i, j, op), sa['dict2'], sort_dict(sb.get('dict2')))
-      chk('chain%d.len' % i, len(ca), len(cb))
+      if not any(isinstance(x, dict) and 'error' in x for x in ca):
+        chk('chain%d.len' % i, len(ca), len(cb))
     return '; '.join(diffs[:4]) if diffs else None
 
   # -- the property itself ------------------------------------------------------------------
